@@ -180,7 +180,7 @@ class Engine:
         t = None
         if m is not None:
             vals = m.consts.get(name, [])
-            if len(vals) == 1:
+            if len(vals) == 1 and not any(isinstance(g, ast.Global) and name in g.names for g in ast.walk(m.tree)):
                 # (a constant of a private module that is analysed as part of this one is
                 # evaluated in the namespace it was written in)
                 t = self.static_term(m.__dict__.get("const_origin", {}).get(name, m), vals[0])
@@ -217,6 +217,17 @@ class Engine:
                     out = t
         cache[key] = out
         return out
+
+    def is_rebound(self, short, name):
+        """is the module-level name assigned more than once, or declared `global` in a function
+        (then its value at a use is not the one bound at import time)"""
+        cache = self.__dict__.setdefault("_rebound", {})
+        key = (short, name)
+        if key not in cache:
+            m = self.prog.by_short.get(short)
+            vals = m.consts.get(name, []) if m else []
+            cache[key] = m is None or len(vals) != 1 or any(isinstance(g, ast.Global) and name in g.names for g in ast.walk(m.tree))
+        return cache[key]
 
     def stable_table(self, gterm):
         """a module-level dict display {constant: value, ...} bound exactly once, whose every use in
